@@ -185,6 +185,10 @@ func runC11Sweep(t *testing.T, tp *simrt.Tape, keepTrace bool) hx.Result {
 					}
 				}
 			}
+			// display limits are applied outside the per-shard recover: survival only
+			ss.Search(refCtx(), queries[0], &zoekt.SearchOptions{ChunkMatches: true, NumContextLines: 1, MaxMatchDisplayCount: 1, MaxDocDisplayCount: 2})
+			ss.Search(refCtx(), queries[2], &zoekt.SearchOptions{ChunkMatches: true, NumContextLines: 2, MaxMatchDisplayCount: 1})
+			res.Evals += 2
 			rl, err := ss.List(refCtx(), &query.Const{Value: true}, nil)
 			res.Evals++
 			if err != nil {
